@@ -569,13 +569,78 @@ Proof.
   - destruct rows; [cbn in Hlen; congruence | discriminate].
 Qed.
 
-(* the zero-tangent shortcut of jvp() does not agree with the contraction path when the tape has a shot vector *)
-Lemma jvp_zero_shortcut_shots_counterexample :
-  exists t tg g results, tp_k t <> O /\ partitioned t = true /\ forallb (Z.eqb 0) tg = true /\
-    snd (jvp_tape t tg g) results <> jvp_proc t tg g results.
+(* ---------- the zero shortcut of jvp(), with and without a shot vector ---------- *)
+Lemma nth_error_all : forall (l pre : list val),
+  all_some (map (fun i => nth_error (pre ++ l) i) (seq (length pre) (length l))) = Some l.
 Proof.
-  exists (Build_tape 1 [0%nat] 2), [0], (1%nat, fun _ => VTup [VT (T0 1); VT (T0 1)]), [1].
-  repeat split; try reflexivity; [discriminate | vm_compute; discriminate].
+  induction l as [|x l IH]; intros pre; [reflexivity|].
+  cbn [length seq map all_some].
+  rewrite nth_error_app2 by lia. rewrite Nat.sub_diag. cbn [nth_error].
+  specialize (IH (pre ++ [x])). rewrite <- app_assoc in IH. cbn [app] in IH.
+  rewrite app_length in IH. cbn [length] in IH. rewrite Nat.add_1_r in IH. rewrite IH. reflexivity.
+Qed.
+
+Lemma all_ok_const : forall {A} (f : A -> res) z (l : list A), Forall (fun x => f x = Ok z) l ->
+  all_ok (map f l) = Some (repeat z (length l)).
+Proof.
+  induction 1 as [|x l Hx Hf IH]; [reflexivity|]. cbn [map all_ok length repeat]. rewrite Hx, IH. reflexivity.
+Qed.
+
+Lemma forallb_zero : forall tg, Forall (eq 0) tg -> forallb (Z.eqb 0) tg = true.
+Proof. induction 1 as [|x l Hx Hf IH]; [reflexivity|]. cbn. rewrite IH. subst. reflexivity. Qed.
+
+(* entry length of a measurement of dimension d (0 = scalar measurement, rank-0 entries) *)
+Definition dlen (d : nat) : nat := if Nat.eqb d 0 then 1%nat else d.
+Definition enc_jrows (d : nat) (rows : list (list Z)) : val := VTup (map (enc_e (Nat.eqb d 0)) rows).
+
+Lemma jvp_single_zero : forall d tg rows, Forall (eq 0) tg -> length tg = length rows -> rows <> [] ->
+  Forall (fun r => length r = dlen d) rows ->
+  compute_jvp_single tg (enc_jrows d rows) = Ok (zero_meas d).
+Proof.
+  intros d tg rows Hz Hl Hne Hf. unfold zero_meas, dlen, enc_jrows in *. destruct (Nat.eqb d 0).
+  - rewrite jvp_single_scalar_ok by assumption. rewrite dot_zero_l by assumption. reflexivity.
+  - destruct (jvp_single_vector_ok d tg rows Hl Hne Hf) as (L & -> & Hlen & Hn).
+    do 3 f_equal. apply all_zero_repeat; [assumption|].
+    intros i. rewrite Hn. unfold contract_jvp. apply dot_zero_l; assumption.
+Qed.
+
+Definition wf_rows (k d : nat) (rows : list (list Z)) : Prop :=
+  length rows = k /\ Forall (fun r => length r = dlen d) rows.
+
+Lemma zero_tangent_shortcut_shots : forall t g results d tg shots_rows,
+  tp_k t <> O -> tp_meas t = [d] -> partitioned t = true ->
+  Forall (eq 0) tg -> length tg = tp_k t ->
+  length shots_rows = tp_shots t -> Forall (wf_rows (tp_k t) d) shots_rows ->
+  snd g results = VTup (map (enc_jrows d) shots_rows) ->
+  snd (jvp_tape t tg g) results = jvp_proc t tg g results.
+Proof.
+  intros t g results d tg shots_rows Hk Hm Hp Hz Hl Hn Hf Hg.
+  unfold jvp_tape. destruct (Nat.eqb_spec (tp_k t) 0) as [E|_]; [congruence|].
+  rewrite (forallb_zero tg Hz). cbn [snd]. rewrite Hp.
+  unfold jvp_proc. rewrite Hp, Hg. cbn [negb].
+  assert (Hmulti : multi t = false) by (unfold multi; rewrite Hm; reflexivity). rewrite Hmulti.
+  assert (Hza : zero_all t = zero_meas d) by (unfold zero_all; rewrite Hm; reflexivity). rewrite Hza.
+  rewrite <- Hn.
+  pose proof (nth_error_all (map (enc_jrows d) shots_rows) []) as Hall.
+  cbn [app length] in Hall. rewrite map_length in Hall. rewrite Hall.
+  rewrite map_map. rewrite (all_ok_const _ (zero_meas d)); [reflexivity|].
+  eapply Forall_impl; [|exact Hf]. intros rows [Hk' Hr]. cbn beta.
+  apply jvp_single_zero; try assumption; [lia|]. destruct rows; [cbn in Hk'; congruence | discriminate].
+Qed.
+
+Lemma zero_tangent_shortcut_noshots : forall t g results d tg rows,
+  tp_k t <> O -> tp_meas t = [d] -> partitioned t = false ->
+  Forall (eq 0) tg -> length tg = tp_k t -> wf_rows (tp_k t) d rows ->
+  snd g results = enc_jrows d rows ->
+  snd (jvp_tape t tg g) results = jvp_proc t tg g results.
+Proof.
+  intros t g results d tg rows Hk Hm Hp Hz Hl [Hk' Hr] Hg.
+  unfold jvp_tape. destruct (Nat.eqb_spec (tp_k t) 0) as [E|_]; [congruence|].
+  rewrite (forallb_zero tg Hz). cbn [snd]. rewrite Hp.
+  unfold jvp_proc. rewrite Hp, Hg. cbn [negb].
+  assert (Hmulti : multi t = false) by (unfold multi; rewrite Hm; reflexivity). rewrite Hmulti.
+  assert (Hza : zero_all t = zero_meas d) by (unfold zero_all; rewrite Hm; reflexivity). rewrite Hza.
+  symmetry. apply jvp_single_zero; try assumption; [lia|]. destruct rows; [cbn in Hk'; congruence | discriminate].
 Qed.
 
 (* ---------- batch processing ---------- *)
